@@ -27,3 +27,36 @@ async def main():
         c2.notify(); print("fresh notify NOT refused")
     except RuntimeError as e: print("fresh refused:", e)
 anyio.run(main)
+
+
+async def stale_waiter():
+    """wait() by a task that no longer holds the lock leaves a stale waiter behind."""
+    from anyio import Condition, create_task_group, wait_all_tasks_blocked
+
+    c = Condition()
+    await c.acquire()
+    c.release()
+    try:
+        await c.wait()
+    except RuntimeError as e:
+        print("wait() without the lock raised:", e)
+    print("stale waiters left behind:", c.statistics().tasks_waiting)
+
+    woken = []
+
+    async def real_waiter():
+        async with c:
+            await c.wait()
+            woken.append("real")
+
+    async with create_task_group() as tg:
+        tg.start_soon(real_waiter)
+        await wait_all_tasks_blocked()
+        async with c:
+            c.notify(1)
+        await wait_all_tasks_blocked()
+        print("after notify(1): woken =", woken, "still waiting =", c.statistics().tasks_waiting)
+        tg.cancel_scope.cancel()
+
+
+anyio.run(stale_waiter)
